@@ -232,6 +232,7 @@ func fioUnwire(s string) (pdf.Object, error) {
 }
 
 func fioParseProg(s string) (*fioProg, error) {
+	wireNilDict = true
 	parts := strings.Split(s, "|")
 	h := strings.Split(parts[0], "~")
 	if len(h) != 11 && len(h) != 12 {
@@ -384,6 +385,41 @@ func fioSnapshot(o pdf.Object) (res string) {
 }
 
 // fioCloneDict makes a deep copy through the wire format.
+// fioDenil replaces typed nil dictionaries by the null object: since library
+// fix D99 that is what the Writer writes for them (as for a nil Array), and what
+// the expected value of a read-back must say.
+func fioDenil(o pdf.Object) pdf.Object {
+	switch x := o.(type) {
+	case pdf.Dict:
+		if x == nil {
+			return nil
+		}
+		out := pdf.Dict{}
+		for k, v := range x {
+			out[k] = fioDenil(v)
+		}
+		return out
+	case pdf.Array:
+		if x == nil {
+			return x
+		}
+		out := make(pdf.Array, len(x))
+		for i, v := range x {
+			out[i] = fioDenil(v)
+		}
+		return out
+	}
+	return o
+}
+
+func fioDenilDict(d pdf.Dict) pdf.Dict {
+	if d == nil {
+		return pdf.Dict{} // the dictionary of a stream itself is always written
+	}
+	out, _ := fioDenil(d).(pdf.Dict)
+	return out
+}
+
 func fioCloneDict(d pdf.Dict) pdf.Dict {
 	o, err := fioUnwire(wire(d))
 	if err != nil {
@@ -416,6 +452,7 @@ func (p *fioProg) opts() *pdf.WriterOptions {
 // is non-nil it is called before every step to append the next operation
 // (generation and execution are interleaved); it returns false to stop.
 func fioExec(p *fioProg, gen func(st *fioExecState) bool) *fioResult {
+	wireNilDict = true // a typed nil Dict is the null object (library fix D99); "N" on the wire
 	res := &fioResult{prog: p, failedAt: -1, written: map[pdf.Reference]*fioWritten{}}
 	var sink io.Writer
 	var seekBuf *fioSeekBuf
@@ -520,7 +557,7 @@ func fioExec(p *fioProg, gen func(st *fioExecState) bool) *fioResult {
 			}
 			if err == nil {
 				if _, dup := res.written[op.ref]; !dup {
-					res.written[op.ref] = &fioWritten{obj: obj, opIndex: i}
+					res.written[op.ref] = &fioWritten{obj: fioDenil(obj), opIndex: i}
 					res.order = append(res.order, op.ref)
 				}
 			}
@@ -543,7 +580,7 @@ func fioExec(p *fioProg, gen func(st *fioExecState) bool) *fioResult {
 				res.mutated = append(res.mutated, fmt.Sprintf("op %d Put(%v, stream of %d bytes): the stream's dictionary %s became %s", i, op.ref, len(op.data), before, after))
 			}
 			if err == nil {
-				res.written[op.ref] = &fioWritten{isStream: true, dict: want, data: op.data, opIndex: i}
+				res.written[op.ref] = &fioWritten{isStream: true, dict: fioDenilDict(want), data: op.data, opIndex: i}
 				res.order = append(res.order, op.ref)
 			}
 		case 'O':
@@ -641,7 +678,7 @@ func fioExec(p *fioProg, gen func(st *fioExecState) bool) *fioResult {
 				if o.pre {
 					streamData = o.data // what the hex text written stands for
 				}
-				res.written[streamRef] = &fioWritten{isStream: true, dict: streamWant, data: streamData, filters: o.filters, opIndex: streamOp}
+				res.written[streamRef] = &fioWritten{isStream: true, dict: fioDenilDict(streamWant), data: streamData, filters: o.filters, opIndex: streamOp}
 				res.order = append(res.order, streamRef)
 			}
 			stream = nil
@@ -664,7 +701,7 @@ func fioExec(p *fioProg, gen func(st *fioExecState) bool) *fioResult {
 			}
 			if err == nil {
 				for k, ref := range op.refs {
-					res.written[ref] = &fioWritten{obj: op.objs[k], inObjStm: true, opIndex: i}
+					res.written[ref] = &fioWritten{obj: fioDenil(op.objs[k]), inObjStm: true, opIndex: i}
 					res.order = append(res.order, ref)
 				}
 			}
@@ -1166,7 +1203,9 @@ func fioGenProg(r *Rand, thorough bool, broken int) *fioResult {
 			if len(sIdx) > 0 && r.P(1, 3) {
 				// the same *Stream value is handed to Put again
 				op.same = Pick(r, sIdx)
-			} else if p.encrypt && r.P(1, 4) {
+			} else if p.encrypt && p.version >= pdf.V1_5 && r.P(1, 4) {
+				// (before PDF 1.5 an encrypted file has no crypt filters: since library fix D51
+				// OpenStream refuses /Filter /Crypt in the dictionary there)
 				// an explicit /Crypt filter in the dictionary of a stream object:
 				// the data is stored as it is, the strings of the dictionary are
 				// still encrypted with the key of this object
@@ -1564,6 +1603,9 @@ func fioMergeStrings(prog, disk pdf.Object) pdf.Object {
 		}
 		return out
 	case pdf.Dict:
+		if x == nil {
+			return x
+		}
 		y, _ := disk.(pdf.Dict)
 		out := pdf.Dict{}
 		for k, v := range x {
